@@ -365,7 +365,7 @@ fn vk_c07_dispatch_assignment() {
     std::mem::forget(e);
 }
 
-//@proof {'props': ['C07'], 'tier': 'quick', 'timeout': 600, 'uses': ['dispatch'], 'bounds': 'operator among the 10 compound-assignment operators (symbolic), result any i64', 'desc': 'x op= e : op is applied to (current value of x read as a reference, e) - e is NOT pre-evaluated, so side effects of e happen after x is read - and the result is stored once and yielded'}
+//@proof {'props': ['C07'], 'tier': 'thorough', 'timeout': 1800, 'uses': ['dispatch'], 'bounds': 'operator among the 10 compound-assignment operators (symbolic), result any i64', 'desc': 'x op= e : op is applied to (current value of x read as a reference, e) - e is NOT pre-evaluated, so side effects of e happen after x is read - and the result is stored once and yielded'}
 #[kani::proof]
 #[kani::unwind(2)]
 fn vk_c07_dispatch_op_assignment() {
